@@ -13,6 +13,11 @@ def run(rep, tier, seed, replay):
                 "compiled pattern is searched (automata product, all canonical paths) for a matched path with an unmatched "
                 "canonical descendant; non-trivial = built and reports Always or Sometimes, or has a tree wildcard")
     exprs = lib.inputs(rep, "C09", tier, seed, 2500, 30000, replay)
+    if replay is None:
+        import random as _random, gen as _gen
+        fam = _gen.exh_family(_random.Random(seed), 4000 if tier == "quick" else None)
+        known = set(exprs)
+        exprs += [e for e in fam if e not in known]
     P = lib.Pair(exprs)
     h, m = P.h, P.m
     rep.evaluations = len(exprs)
